@@ -266,6 +266,55 @@ theorem kaitai_agrees_native (c : Compression) (ct : Nat) (rs : List GoBytes)
     intro r _
     exact expectedRec_payload c r
 
+/-! ## zero padding (direct-I/O images) -/
+
+/-- what the Kaitai reader reports for a tail of k+1 zero bytes where a record should start -/
+def padErr (k : Nat) : Err := if k + 1 < 3 then .unexpectedEof else .magic
+
+theorem parseRecord_zeros (v ct k : Nat) :
+    parseObj schema "file_header" (hdrEnv v ct) recTy (List.replicate (k + 1) 0) = .error (padErr k) := by
+  match k with
+  | 0 => simp [parseObj, recTy_seq, parseSeq, parseField, readBytes, magicBytes, padErr]
+  | 1 => simp [parseObj, recTy_seq, parseSeq, parseField, readBytes, magicBytes, padErr, List.replicate]
+  | k + 2 =>
+    have h3 : ¬ (k + 1 + 1 + 1 < 3) := by omega
+    simp [h3, parseObj, recTy_seq, parseSeq, parseField, readBytes, magicBytes, padErr, List.replicate]
+
+theorem parseRecords_enc_pad (v ct : Nat) (c : Compression) (hm : CodeMatches ct c) (k : Nat) (rs : List GoBytes) :
+    ∀ fuel, (∀ r ∈ rs, KFitsRec c r) → (encAll c rs).length < fuel →
+    parseRecords schema "file_header" (hdrEnv v ct) recTy fuel (encAll c rs ++ List.replicate (k + 1) 0) = .error (padErr k) := by
+  induction rs with
+  | nil =>
+    intro fuel _ hfuel
+    cases fuel with
+    | zero => simp at hfuel
+    | succ f =>
+      have hne : ¬ (List.replicate (k + 1) (0 : UInt8)).isEmpty = true := by simp [List.replicate]
+      rw [encAll_nil, List.nil_append, parseRecords, if_neg hne, parseRecord_zeros]
+  | cons r rs ih =>
+    intro fuel hf hfuel
+    cases fuel with
+    | zero => simp at hfuel
+    | succ f =>
+      have hpos := encRecord_pos c r
+      have hne : ¬ (encRecord c r ++ (encAll c rs ++ List.replicate (k + 1) 0)).isEmpty = true := by
+        simp [List.isEmpty_iff]
+      obtain ⟨env, h1, h2⟩ := parseRecord_enc v ct c r (encAll c rs ++ List.replicate (k + 1) 0) hm (hf r (by simp))
+      have hlen : (encAll c rs).length < f := by
+        simp [encAll_cons] at hfuel; omega
+      rw [encAll_cons, List.append_assoc, parseRecords, if_neg hne, h1]
+      simp only [h2, ih f (fun r hr => hf r (by simp [hr])) hlen]
+
+theorem kaitai_rejects_padding (c : Compression) (v ct : Nat) (rs : List GoBytes) (k : Nat)
+    (hv : v < 2 ^ 32) (hc : ct < 2 ^ 32) (hm : CodeMatches ct c) (hf : ∀ r ∈ rs, KFitsRec c r) :
+    kaitaiParse schema (fileHeader v ct ++ encAll c rs ++ List.replicate (k + 1) 0) = .error (padErr k) := by
+  rw [List.append_assoc]
+  simp only [kaitaiParse, schema_top, schema_types.1, schema_types.2, Bool.false_or, Bool.not_true,
+    parseHeader_enc v ct _ hv hc, mkHdr_hdrEnv,
+    parseRecords_enc_pad v ct c hm k rs ((encAll c rs ++ List.replicate (k + 1) 0).length + 1) hf
+      (by simp only [List.length_append]; omega)]
+  simp
+
 /-! ## facts decided over the regenerated tables -/
 
 /-- every compression code the writer accepts (0 … `maxCompression`, from the Go constants) has a name in the
